@@ -38,8 +38,10 @@ class SmtpRelayError(RelayError):
 
     def __init__(self, type, reply):
         command = reply.command or b'[unknown command]'
-        msg = '{0} failure on {1}: {2}'.format(
-            type, command.decode('ascii'), str(reply))
+        if isinstance(command, bytes):
+            # The HTTP relay names the command with a string.
+            command = command.decode('ascii')
+        msg = '{0} failure on {1}: {2}'.format(type, command, str(reply))
         super(SmtpRelayError, self).__init__(msg, reply)
 
     @staticmethod
